@@ -286,7 +286,7 @@ class H(explore.Harness):
             self.pairing.supports_subscribe, bool(self.pairing.is_connected), self.drops, tuple(sorted((k, len(v)) for k, v in self.logs.items())), "S" in self.logs,
             _canon.canon(self.pairing, depth=3, skip=("controller", "_accessories_state", "pairing_data", "_pairing_data", "listeners", "availability_listeners", "config_changed_listeners",
                                                      "owner", "_loop", "_connect_lock", "_connector", "description", "c2a_key", "a2c_key", "encryptor", "decryptor", "c2a_counter", "a2c_counter")),
-            tuple(sorted(round(h._when - self.loop.time(), 6) for h in self.loop._scheduled if not h._cancelled)),
+            tuple(sorted(round(h._when - self.loop.time(), 6) for h in self.loop._scheduled if not h._cancelled)), _canon.tasks_sig(self.loop),
         )
 
     def finish(self):
